@@ -15,7 +15,8 @@ Record case := {
   pid_obs : bytes;                (* peer id derived by the transport library *)
   px : N; py : N;                 (* crypto.DecompressPubkey(comp) *)
   addr_pid_obs : option bytes;    (* GetEthAddressFromPeerID(pid) *)
-  addr_sign_obs : bytes;          (* crypto.PubkeyToAddress of the same scalar *)
+  addr_sign_obs : bytes;          (* the address the key signer reports (GetAddress; PubkeyToAddress for the mock) *)
+  addr_recovered : bytes;         (* address recovered from a signature the key signer made *)
   full : bool;                    (* a real Service was started with this key *)
   start_ok : bool;
   host_pid : bytes;
@@ -50,6 +51,7 @@ Definition agrees (c : case) : bool :=
   bytes_eqb (peerid (comp c)) (pid_obs c) &&
   opt_bytes_eqb (model_addr c) (addr_pid_obs c) &&
   bytes_eqb (signing_addr keccak256 (pub_of c) (d c)) (addr_sign_obs c) &&
+  bytes_eqb (addr_recovered c) (addr_sign_obs c) &&
   (negb (full c) || (start_ok c && bytes_eqb (host_pid c) (pid_obs c) && opt_bytes_eqb (host_addr c) (addr_pid_obs c))).
 
 Definition mismatches (cs : list case) : list N := map id (filter (fun c => negb (agrees c)) cs).
@@ -59,6 +61,7 @@ Definition violation (c : case) : option string :=
   if negb (unmarshal_ok c) || (full c && negb (start_ok c)) then Some "cannot-start"%string
   else if negb (opt_bytes_eqb (addr_pid_obs c) (Some (addr_sign_obs c))) then Some "address-differs"%string
   else if full c && negb (opt_bytes_eqb (host_addr c) (Some (addr_sign_obs c))) then Some "address-differs"%string
+  else if full c && negb (bytes_eqb (addr_recovered c) (addr_sign_obs c)) then Some "address-differs"%string
   else None.
 
 Definition violations (cs : list case) : list (N * string) :=
